@@ -103,6 +103,14 @@ func init() {
 			ex.mapOrder = c.IsConst() && c.B
 			return nil
 		},
+		"verifCaptureStdout": func(ex *Exec, fn *ssa.Function, args []Value) Value {
+			saved := ex.stdout
+			ex.stdout = ""
+			ex.callValue(args[0].(*FuncV), nil)
+			out := ex.stdout
+			ex.stdout = saved
+			return StrConst(out)
+		},
 		"verifRaceDetect": func(ex *Exec, fn *ssa.Function, args []Value) Value {
 			c := args[0].(*Term)
 			ex.race = c.IsConst() && c.B
